@@ -115,6 +115,13 @@ func c05Scenarios(tier string) []*Scenario {
 			add(tr, "", false, RPC{Kind: "bd", Client: []string{"S0", "H", "R*"}, Handler: h}, o)
 			add(tr, "", false, RPC{Kind: "cs", Client: []string{"S0", "R*", "S1"}, Handler: h}, o)
 		}
+		// calls made with a context that is already done, one after the other on the same channel
+		for _, kind := range []string{"bd", "cs", "ss"} {
+			one := RPC{Kind: kind, Client: []string{"S0", "C", "R*", "H", "T"}, Handler: []string{"r*", "s0", "ret:ok"}}
+			sc := &Scenario{Prop: "C05", Transport: tr, Bound: -1, Opts: "seq0,precancel,misuse", RPCs: []RPC{one, one}}
+			sc.Name = "precancelled|" + rpcName(one) + " >> " + rpcName(one)
+			out = append(out, sc)
+		}
 		// CloseSend from two goroutines at once, also while a SendMsg is held back
 		add(tr, "", false, RPC{Kind: "bd", Client: []string{"S0", "C", "R*"}, Client2: []string{"C"}, Handler: []string{"r*", "s0", "ret:ok"}}, "misuse")
 		if tr == "inproc" {
@@ -154,7 +161,7 @@ func c05Oracle(sc *Scenario, rec *Rec, s *mc.Sched) []mc.Violation {
 	if len(out) > 0 {
 		return out
 	}
-	misuse := sc.Opts == "misuse"
+	misuse := strings.Contains(sc.Opts, "misuse")
 	handlerDone := true
 	for _, rr := range rec.RPCs {
 		if rr.HandlerRan > 0 && !rr.HandlerDone {
